@@ -14,10 +14,12 @@ import (
 	"runtime"
 	"sort"
 	"strconv"
+	"strings"
 	"sync"
 	"sync/atomic"
 	"time"
 
+	"git.metabarcoding.org/obitools/obitools4/obitools4/pkg/obiformats"
 	"git.metabarcoding.org/obitools/obitools4/obitools4/pkg/obiiter"
 	"git.metabarcoding.org/obitools/obitools4/obitools4/pkg/obioptions"
 	"git.metabarcoding.org/obitools/obitools4/obitools4/pkg/obiseq"
@@ -25,21 +27,26 @@ import (
 )
 
 type c03Batch struct {
-	O    int   `json:"o"`
-	Ids  []int `json:"ids"`
-	Pids []int `json:"pids,omitempty"` // ids of the paired mates (pairto only)
+	O     int      `json:"o"`
+	Ids   []int    `json:"ids"`
+	Pids  []int    `json:"pids,omitempty"`  // ids of the paired mates (pairto only)
+	Names []string `json:"names,omitempty"` // fragments only: full identifiers
+	Seqs  []string `json:"seqs,omitempty"`  // fragments only: sequences
 }
 
 type c03Case struct {
 	Op      string       `json:"op"`
 	Streams [][]c03Batch `json:"streams"`
-	Data    []int        `json:"data"`  // batchover: the slice
-	Size    int          `json:"size"`  // batch size parameter
-	NW      int          `json:"nw"`    // number of workers
-	Mod     int          `json:"mod"`   // worker function / predicate / classifier modulus
-	Mod2    int          `json:"mod2"`  // pipeline: modulus of the filter predicate
-	Yield   int          `json:"yield"` // >0: workers sleep a pseudo random number of microseconds < yield
-	DL      int          `json:"dl"`    // deadline in ms (default 3000)
+	Data    []int        `json:"data"`    // batchover: the slice
+	Size    int          `json:"size"`    // batch size parameter
+	NW      int          `json:"nw"`      // number of workers
+	Mod     int          `json:"mod"`     // worker function / predicate / classifier modulus
+	Mod2    int          `json:"mod2"`    // pipeline: modulus of the filter predicate
+	Yield   int          `json:"yield"`   // >0: workers sleep a pseudo random number of microseconds < yield
+	DL      int          `json:"dl"`      // deadline in ms (default 3000)
+	MinSize int          `json:"minsize"` // fragments
+	Length  int          `json:"length"`  // fragments
+	Overlap int          `json:"overlap"` // fragments
 }
 
 type c03Out struct {
@@ -63,10 +70,26 @@ func c03Seq(id int) *obiseq.BioSequence {
 	return obiseq.NewBioSequence("r"+strconv.Itoa(id), []byte("acgtacgt"), "")
 }
 
+// c03LongSeq: record id has length 1 + (7*id mod 61) and letter (id + j*j + j/3) mod 4 at position j
+func c03LongSeq(id int) *obiseq.BioSequence {
+	n := 1 + (7*id)%61
+	b := make([]byte, n)
+	for j := range b {
+		b[j] = "acgt"[(id+j*j+j/3)%4]
+	}
+	return obiseq.NewBioSequence("r"+strconv.Itoa(id), b, "")
+}
+
+var c03Long = false
+
 func c03Slice(ids []int) obiseq.BioSequenceSlice {
 	s := make(obiseq.BioSequenceSlice, 0, len(ids)+1)
 	for _, id := range ids {
-		s = append(s, c03Seq(id))
+		if c03Long {
+			s = append(s, c03LongSeq(id))
+		} else {
+			s = append(s, c03Seq(id))
+		}
 	}
 	return s
 }
@@ -75,7 +98,11 @@ func c03Id(s *obiseq.BioSequence) int {
 	if s == nil {
 		return -1
 	}
-	v, err := strconv.Atoi(s.Id()[1:])
+	id := s.Id()
+	if k := strings.Index(id, "_sub"); k >= 0 {
+		id = id[:k]
+	}
+	v, err := strconv.Atoi(id[1:])
 	if err != nil {
 		return -2
 	}
@@ -115,6 +142,10 @@ func (c *c03Collector) drain(key int, it obiiter.IBioSequence, paired bool) {
 			ob := c03Batch{O: b.Order(), Ids: []int{}}
 			for _, s := range b.Slice() {
 				ob.Ids = append(ob.Ids, c03Id(s))
+				if c03Long {
+					ob.Names = append(ob.Names, s.Id())
+					ob.Seqs = append(ob.Seqs, string(s.Sequence()))
+				}
 				if paired {
 					ob.Pids = append(ob.Pids, c03Id(s.PairedWith()))
 				}
@@ -157,6 +188,7 @@ func c03Pred(mod int) obiseq.SequencePredicate {
 func c03Run(c c03Case) (obs c03Obs) {
 	obs = c03Obs{Kind: "ok", Outs: []c03Out{}}
 	c03Fatal.Store(false)
+	c03Long = c.Op == "fragments"
 	col := &c03Collector{}
 	var newsMu sync.Mutex
 	news := []int{}
@@ -248,6 +280,25 @@ func c03Run(c c03Case) (obs c03Obs) {
 			it := src(0).MakeIWorker(c03Worker(c.Mod, c.Yield), false, nw).
 				FilterOn(c03Pred(c.Mod2), c.Size, nw).SortBatches()
 			col.drain(0, it, false)
+		case "readfiles", "readfiles_par":
+			// ReadSequencesBatchFromFiles with a reader that serves the given arrival history of "file" i
+			names := []string{}
+			for i := range c.Streams {
+				names = append(names, strconv.Itoa(i))
+			}
+			reader := func(name string, _ ...obiformats.WithOption) (obiiter.IBioSequence, error) {
+				i, _ := strconv.Atoi(name)
+				return src(i), nil
+			}
+			nr := 1
+			if c.Op == "readfiles_par" {
+				nr = nw
+			}
+			col.drain(0, obiformats.ReadSequencesBatchFromFiles(names, reader, nr), false)
+		case "merge":
+			col.drain(0, src(0).IMergeSequenceBatch("NA", obiseq.StatsOnDescriptions{}, c.Size), false)
+		case "fragments":
+			col.drain(0, src(0).Pipe(obiiter.IFragments(c.MinSize, c.Length, c.Overlap, c.Size, nw)), false)
 		case "pairto":
 			obioptions.SetBatchSize(c.Size)
 			col.drain(0, src(0).PairTo(src(1)), true)
@@ -260,7 +311,7 @@ func c03Run(c c03Case) (obs c03Obs) {
 	}
 	dl := c.DL
 	if dl <= 0 {
-		dl = 3000
+		dl = 8000
 	}
 	done := make(chan struct{})
 	go func() {
@@ -268,11 +319,27 @@ func c03Run(c c03Case) (obs c03Obs) {
 		col.wg.Wait()
 		close(done)
 	}()
-	select {
-	case <-done:
-		obs.Term = true
-	case <-time.After(time.Duration(dl) * time.Millisecond):
-		obs.Term = false
+	deadline := time.After(time.Duration(dl) * time.Millisecond)
+	tick := time.NewTicker(2 * time.Millisecond)
+	defer tick.Stop()
+wait:
+	for {
+		select {
+		case <-done:
+			obs.Term = true
+			break wait
+		case <-deadline:
+			obs.Term = false
+			break wait
+		case <-tick.C:
+			// log.Fatal was called in a library goroutine (it has been ended): the outputs will never
+			// be closed, no need to wait for the deadline
+			if c03Fatal.Load() {
+				time.Sleep(20 * time.Millisecond)
+				obs.Term = false
+				break wait
+			}
+		}
 	}
 	obs.Fatal = c03Fatal.Load()
 	col.mu.Lock()
